@@ -74,7 +74,7 @@ def _chunk_worker(engine, prop, tier, seed, idxs, keep_cases):
             "states": res["states"],
             "nontrivial": res["nontrivial"],
             "violations": viols,
-            "steps": len(res["log"]),
+            "steps": res.get("steps", len(res["log"])),
         }
         if viols or i in keep_cases:
             rec["case"] = case
@@ -120,14 +120,16 @@ def run_items(engine, prop, tier, seed, n_items, jobs, wall_cap, stop_on_violati
         keep_cases = set(range(0, n_items, step))
     args = [(engine, prop, tier, seed, c, keep_cases) for c in idx_chunks]
     agg = Agg()
+    known_sigs = {k["signature"] for k in load_known().get("findings", []) if k["property"] == prop}
+    unknown = [0]
 
     def on_result(idx, recs):
-        stop = False
         for rec in recs:
             agg.add(rec)
-            if rec["violations"]:
-                stop = True
-        if stop and stop_on_violation and len(agg.violating) >= 24:
+            if any(engine.signature(rec["case"], v) not in known_sigs for v in rec["violations"]):
+                unknown[0] += 1
+        # known findings never cut the exploration short
+        if stop_on_violation and unknown[0] >= 24:
             return "stop"
 
     timeout = engine.CASE_TIMEOUT * chunk + 30
